@@ -18,7 +18,7 @@ func init() {
 		Technique: "guard (control-dependence) rules on HashSet.Add/Remove/Exist, error discipline on IBytePool.Set, sibling-predicate agreement between nodePool.validateKey and the Set method of each byte pool newNodePool can install, normaliser agreement of the bucket function, path rules on the node free list (MustPass / ReachAvoiding), dominance of unlink-before-recycle",
 		Meta: core.Meta{
 			Level:       "other",
-			Explanation: "Decides: (a) HashSet.Add reaches nodePool.add and the bucket store only when Full() is false, validateKey(key) returned nil and exist(bucket, key) is false; the bucket head is overwritten only with the node returned by a nodePool.add whose error is nil (a failed add leaves existing chains untouched); (b) the error of IBytePool.Set is not dropped by nodePool.add, and for every pool type newNodePool can install, the key-length relation accepted by validateKey implies the one enforced by that pool's Set (or Set's verdict is honoured); the size validateKey compares with is the pool's MaxElemSize, which reads the same field Set checks; (c) Add, Remove, Exist compute the bucket as hashFunc(key) % uint64(haSize), index ha only with it, and ha is allocated with haSize entries; (d) Remove/Exist validate the key first, Remove calls del only on a non-empty chain and stores del's result; (e) nodePool.add uses the free node only when getFreeNode succeeded, links it in front of head, increments length exactly on the success paths and returns that node; getFreeNode tests freeNode == -1 before indexing; recyleNode saves the old free head before overwriting it, links the node in front and decrements length; in del every key match unlinks (reads the successor) before recycling the same node and recycles before returning; full() is length >= capacity; nodePool.exist walks from head along array[index].next, reports membership only under compare(key, index) == 0 and absence only at index == -1, and compare reads pool.Get of that node; (f) both pools' Set copy only after the index and length checks; BytePool.Set records the length; NewHashSet rejects elemNum/elemSize <= 0 before allocating. Not covered: free-list and chain manipulation over histories (no aliasing/acyclicity proof), the hash function, equality of stored bytes (bytes.Compare on pool slices).",
+			Explanation: "Decides: (a) HashSet.Add reaches nodePool.add and the bucket store only when Full() is false, validateKey(key) returned nil and exist(bucket, key) is false; the bucket head is overwritten only with the node returned by a nodePool.add whose error is nil (a failed add leaves existing chains untouched); (b) the error of IBytePool.Set is not dropped by nodePool.add, and for every pool type newNodePool can install, the key-length relation accepted by validateKey implies the one enforced by that pool's Set (or Set's verdict is honoured); the size validateKey compares with is the pool's MaxElemSize, which reads the same field Set checks; (c) Add, Remove, Exist compute the bucket as hashFunc(key) % uint64(haSize), index ha only with it, and ha is allocated with haSize entries; (d) Remove/Exist validate the key first, Remove calls del only on a non-empty chain and stores del's result; (e) nodePool.add uses the free node only when getFreeNode succeeded, links it in front of head, increments length exactly on the success paths and returns that node, and puts the node back on the free list when it fails after taking it; getFreeNode tests freeNode == -1 before indexing; recyleNode saves the old free head before overwriting it, links the node in front and decrements length; in del every key match unlinks (reads the successor) before recycling the same node and recycles before returning; full() is length >= capacity; nodePool.exist walks from head along array[index].next, reports membership only under compare(key, index) == 0 and absence only at index == -1, and compare reads pool.Get of that node; (f) both pools' Set copy only after the index and length checks; BytePool.Set records the length; NewHashSet rejects elemNum/elemSize <= 0 before allocating. Not covered: free-list and chain manipulation over histories (no aliasing/acyclicity proof), the hash function, equality of stored bytes (bytes.Compare on pool slices).",
 			RuleText:    "obligations = each guarded call/store of Add/Remove/Exist, each IBytePool.Set call in hash_set, each installable pool type, each bucket computation, each free-list operation, each key match in del, each pool Set copy",
 			Assumptions: []string{"nodes handed out by getFreeNode are not in any chain (free list and chains are disjoint: not decided)"},
 		},
@@ -39,7 +39,9 @@ func init() {
 			{Name: "fixed-pool-length-check-dropped", File: "bfe_util/byte_pool/fixed_byte_pool.go", Old: "	if len(key) != pool.elemSize {\n		return fmt.Errorf(\"length must be %d while %d\", pool.elemSize, len(key))\n	}\n", New: "", Expect: "pool-set-guard|FixedBytePool"},
 			{Name: "exist-skips-head", File: "bfe_util/hash_set/node_pool.go", Old: "	for index := head; index != -1; index = np.array[index].next {\n		if np.compare(key, index) == 0 {\n			return true", New: "	for index := np.array[head].next; index != -1; index = np.array[index].next {\n		if np.compare(key, index) == 0 {\n			return true", Expect: "chain-walk|nodePool.exist:walk"},
 			{Name: "silent-bucket-helper", File: "bfe_util/hash_set/hash_set.go", Old: "	hashNum := set.hashFunc(key) % uint64(set.haSize)\n	return set.exist(hashNum, key)\n}", New: "	hashNum := set.bucketOf(key)\n	return set.exist(hashNum, key)\n}\n\nfunc (set *HashSet) bucketOf(k []byte) uint64 {\n	return set.hashFunc(k) % uint64(set.haSize)\n}", Silent: true},
-			{Name: "silent-fix-honour-set-error", File: "bfe_util/hash_set/node_pool.go", Old: "	np.array[node].next = head\n	//set the node with key\n	np.pool.Set(node, key)\n", New: "	//set the node with key\n	if err := np.pool.Set(node, key); err != nil {\n		np.array[node].next = np.freeNode\n		np.freeNode = node\n		return -1, err\n	}\n	np.array[node].next = head\n", Silent: true},
+			{Name: "set-error-dropped-again", File: "bfe_util/hash_set/node_pool.go", Old: "	if err := np.pool.Set(node, key); err != nil {\n		// the pool refused the key: give the node back, nothing was added\n		np.array[node].next = np.freeNode\n		np.freeNode = node\n		return -1, err\n	}\n	np.array[node].next = head\n", New: "	np.array[node].next = head\n	np.pool.Set(node, key)\n", Expect: "set-error|nodePool.add"},
+			{Name: "failed-set-leaks-node", File: "bfe_util/hash_set/node_pool.go", Old: "		np.array[node].next = np.freeNode\n		np.freeNode = node\n		return -1, err\n", New: "		np.length += 1\n		return -1, err\n", Expect: "length|nodePool.add:failure"},
+			{Name: "failed-set-keeps-node", File: "bfe_util/hash_set/node_pool.go", Old: "		np.array[node].next = np.freeNode\n		np.freeNode = node\n		return -1, err\n", New: "		return -1, err\n", Expect: "free-list|nodePool.add:failure"},
 		},
 	})
 }
@@ -583,6 +585,19 @@ func runC20(c *core.Ctx) {
 						}
 					}
 					c.Check("length", fmt.Sprintf("nodePool.add:failure#%d", i+1), r.Pos(), !after, "nodePool.add returns an error after length was already incremented")
+					if errNil(r.Block()) {
+						// the node was already taken from the free list: it must go back
+						giveBack := func(in ssa.Instruction) bool {
+							st, ok := in.(*ssa.Store)
+							if !ok {
+								return false
+							}
+							f, _ := uuFieldAddr(st.Addr)
+							return f == freeFld && isNode(st.Val)
+						}
+						leak := core.ReachAvoiding(npAdd, gf, giveBack, func(x ssa.Instruction) bool { return x == ssa.Instruction(r) })
+						c.Check("free-list", fmt.Sprintf("nodePool.add:failure#%d:node-returned", i+1), r.Pos(), leak == nil, "nodePool.add fails after it took a node from the free list and does not put it back (freeNode = node): every failed Add would shrink the usable capacity")
+					}
 				}
 			}
 		}
